@@ -424,6 +424,19 @@ def _legacy_build():
     ri2 = next(i for i, (cid, d) in enumerate(out2) if cid == b"CHDT" and len(d) >= 0x100 and d[0xFC:0x100] == b"PMAS")
     out2[ri2] = (b"CHDT", rec[:0xFC] + b"XXXX" + rec[0x100:])
     variants["no-envelopes+signature-altered"] = codec.build_chunks(out2)
+    # the same legacy layouts with sample rates other than the default 44100 (a replay of the raw chunks must keep them)
+    from struct import pack
+
+    for name in ("signature-altered", "no-envelopes+signature-altered"):
+        ch = codec.parse_chunks(variants[name])
+        k = 0
+        out3 = []
+        for cid, d in ch:
+            if cid == b"CHFR" and len(d) == 4:
+                k += 1
+                d = pack("<I", 8000 + 1000 * k)
+            out3.append((cid, d))
+        variants[name + ":rates"] = codec.build_chunks(out3)
     return variants, rec
 
 
